@@ -22,6 +22,7 @@ import (
 	v3 "github.com/deadsy/sdfx/vec/v3"
 	"github.com/deadsy/sdfx/vec/v3i"
 	. "verifharness/kit"
+	mk "verifharness/marchkit"
 	sk "verifharness/samplekit"
 )
 
@@ -92,6 +93,9 @@ func (st *state) fine(sp *Spec, stratum string) {
 	if sp.Dim == 2 {
 		bb := box2(sp)
 		g := grid2(bb, sp.Cells)
+		if msg := mk.CheckScaled2(bb); msg != "" {
+			fail(msg)
+		}
 		F, err := sp.Field.Build2(g, 0, nil)
 		if err != nil {
 			fail("bad spec: " + err.Error())
@@ -134,6 +138,9 @@ func (st *state) fine(sp *Spec, stratum string) {
 	}
 	bb := box3(sp)
 	g := grid3(bb, sp.Cells)
+	if msg := mk.CheckScaled3(bb); msg != "" {
+		fail(msg)
+	}
 	F, err := sp.Field.Build3(g, 0, nil)
 	if err != nil {
 		fail("bad spec: " + err.Error())
@@ -350,6 +357,9 @@ func (st *state) reuse(sp *Spec, stratum string) {
 		if sp.Dim == 3 {
 			bb := box3(it)
 			g := grid3(bb, sp.Cells)
+			if msg := mk.CheckScaled3(bb); msg != "" {
+				fail(msg)
+			}
 			F, err := it.Field.Build3(g, 0, nil)
 			if err != nil {
 				fail("bad spec: " + err.Error())
@@ -407,6 +417,9 @@ func (st *state) reuse(sp *Spec, stratum string) {
 		}
 		bb := box2(it)
 		g := grid2(bb, sp.Cells)
+		if msg := mk.CheckScaled2(bb); msg != "" {
+			fail(msg)
+		}
 		F, err := it.Field.Build2(g, 0, nil)
 		if err != nil {
 			fail("bad spec: " + err.Error())
